@@ -96,6 +96,42 @@ fn rg_case(r1: &Rg, r2: &Rg, probe: Option<&str>) -> Option<String> {
     Some(format!("{} {}", acc, hit))
 }
 
+/// Three endpoints on one method and path: which registrations are accepted
+/// (a refused one is skipped and the next is tried on the accepted set), and
+/// which handler a lookup at `probe` reaches.
+fn rg3_case(rs: &[&Rg; 3], probe: &str) -> Option<String> {
+    let mut accepted: Vec<usize> = vec![];
+    let mut flags = vec![];
+    for i in 0..3 {
+        let mut trial = accepted.clone();
+        trial.push(i);
+        let reals: Option<Vec<R>> = trial.iter().map(|j| rs[*j].real()).collect();
+        let reals = reals?;
+        let ok = catch(move || {
+            let mut api = ApiDescription::<StubContext>::new();
+            for (k, r) in trial.iter().zip(reals.into_iter()) {
+                api.register(endpoint(&format!("h{}", k + 1), r)).unwrap();
+            }
+        })
+        .is_ok();
+        flags.push(ok as u8);
+        if ok {
+            accepted.push(i);
+        }
+    }
+    let mut api = ApiDescription::<StubContext>::new();
+    for j in &accepted {
+        api.register(endpoint(&format!("h{}", j + 1), rs[*j].real()?)).unwrap();
+    }
+    let router = api.into_router();
+    let pv = Version::parse(probe).unwrap();
+    let hit = match router.lookup_route(&http::Method::GET, "/x".into(), Some(&pv)) {
+        Ok(res) => res.endpoint.operation_id.clone(),
+        Err(e) => format!("{}", e.status_code.as_u16()),
+    };
+    Some(format!("{}{}{} {}", flags[0], flags[1], flags[2], hit))
+}
+
 const NUMS: &[&str] = &["0", "1", "2", "9", "10", "18446744073709551615"];
 const PRE_IDS: &[&str] = &[
     "0", "1", "2", "10", "99", "100", "alpha", "beta", "rc", "a", "A", "-", "0a", "a0", "x-y", "00a",
@@ -243,6 +279,20 @@ fn main() {
                     out.line(&format!("rg {} {} {} {} => {}", id, r.enc(), s.enc(), p, res));
                 }
             }
+        }
+    }
+
+    // ---- three registrations on one path: a conflict with an *earlier* endpoint
+    // must be found whatever was registered in between
+    let n3 = if thorough { 30000 } else { 3000 };
+    for _ in 0..n3 {
+        let a = rng.pick(&ranges).clone();
+        let b = rng.pick(&ranges).clone();
+        let c = rng.pick(&ranges).clone();
+        let p = *rng.pick(&pool);
+        if let Some(res) = rg3_case(&[&a, &b, &c], p) {
+            id += 1;
+            out.line(&format!("rg3 {} {} {} {} {} => {}", id, a.enc(), b.enc(), c.enc(), p, res));
         }
     }
 
